@@ -7,6 +7,7 @@ import (
 	"go/types"
 	"sort"
 	"strings"
+	"sync"
 
 	"golang.org/x/tools/go/cfg"
 	"golang.org/x/tools/go/ssa"
@@ -16,20 +17,152 @@ import (
 
 // ---- C06.R1 depth threading ----
 
-// depthParam returns the parameter object named depth (type int64) of fd.
-func depthParam(info *types.Info, fd *ast.FuncDecl) types.Object {
-	for _, f := range fd.Type.Params.List {
-		for _, n := range f.Names {
-			if n.Name == "depth" {
-				if o := info.Defs[n]; o != nil {
-					if b, ok := o.Type().Underlying().(*types.Basic); ok && b.Kind() == types.Int64 {
-						return o
-					}
+// depthRoles finds the nesting-depth parameters of the decoder package by role, not by name: a parameter of type
+// int64 is a depth parameter if it stands at the depth position of a Decoder method (Decode, DecodePath: third;
+// DecodeStream: second), if the function compares it with maxDecodeNestingDepth, or if the function passes it
+// (as it is, or plus a constant) at the depth position of a callee (fixpoint).
+var (
+	depthMu    sync.Mutex
+	depthCache = map[*core.Program]map[types.Object]int{} // *types.Func → index of its depth parameter
+)
+
+func depthIndexOf(p *core.Program, f *types.Func) int {
+	depthMu.Lock()
+	defer depthMu.Unlock()
+	m, ok := depthCache[p]
+	if !ok {
+		m = computeDepthRoles(p)
+		depthCache[p] = m
+	}
+	if i, ok := m[f]; ok {
+		return i
+	}
+	return -1
+}
+
+func computeDepthRoles(p *core.Program) map[types.Object]int {
+	m := map[types.Object]int{}
+	isInt64 := func(t types.Type) bool {
+		b, ok := t.Underlying().(*types.Basic)
+		return ok && b.Kind() == types.Int64
+	}
+	type fn struct {
+		fd   *ast.FuncDecl
+		obj  *types.Func
+		info *types.Info
+	}
+	var fns []fn
+	for _, short := range []string{"decoder", "json"} {
+		for _, fd := range p.Funcs(short) {
+			if fd.Body == nil {
+				continue
+			}
+			info := p.Info(fd)
+			obj, _ := info.Defs[fd.Name].(*types.Func)
+			if obj == nil {
+				continue
+			}
+			fns = append(fns, fn{fd, obj, info})
+			sig := obj.Type().(*types.Signature)
+			if sig.Recv() != nil {
+				idx := -1
+				switch obj.Name() {
+				case "Decode", "DecodePath":
+					idx = 2
+				case "DecodeStream":
+					idx = 1
+				}
+				if idx >= 0 && idx < sig.Params().Len() && isInt64(sig.Params().At(idx).Type()) && sig.Params().Len() >= 3 {
+					m[obj] = idx
+					continue
 				}
 			}
+			// compared with the nesting limit
+			ast.Inspect(fd.Body, func(x ast.Node) bool {
+				be, ok := x.(*ast.BinaryExpr)
+				if !ok {
+					return true
+				}
+				for _, pair := range [][2]ast.Expr{{be.X, be.Y}, {be.Y, be.X}} {
+					c, isC := core.ObjOf(info, pair[1]).(*types.Const)
+					if !isC || c.Name() != "maxDecodeNestingDepth" {
+						continue
+					}
+					o := core.ObjOf(info, pair[0])
+					for i := 0; i < sig.Params().Len(); i++ {
+						if sig.Params().At(i) == o && isInt64(o.Type()) {
+							m[obj] = i
+						}
+					}
+				}
+				return true
+			})
 		}
 	}
-	return nil
+	for changed := true; changed; {
+		changed = false
+		for _, f := range fns {
+			if _, done := m[f.obj]; done {
+				continue
+			}
+			sig := f.obj.Type().(*types.Signature)
+			ast.Inspect(f.fd.Body, func(x ast.Node) bool {
+				call, ok := x.(*ast.CallExpr)
+				if !ok {
+					return true
+				}
+				callee := core.Callee(f.info, call)
+				if callee == nil {
+					return true
+				}
+				ci, known := m[callee]
+				if !known {
+					// interface methods of Decoder
+					if csig, ok := callee.Type().(*types.Signature); ok && csig.Recv() != nil {
+						if _, isIface := csig.Recv().Type().Underlying().(*types.Interface); isIface && strings.HasPrefix(pkgPathOf(callee), core.ModPath) {
+							switch callee.Name() {
+							case "Decode", "DecodePath":
+								ci, known = 2, true
+							case "DecodeStream":
+								ci, known = 1, true
+							}
+						}
+					}
+				}
+				if !known || ci >= len(call.Args) {
+					return true
+				}
+				a := core.Unparen(call.Args[ci])
+				if be, ok := a.(*ast.BinaryExpr); ok && be.Op == token.ADD {
+					a = core.Unparen(be.X)
+				}
+				o := core.ObjOf(f.info, a)
+				for i := 0; i < sig.Params().Len(); i++ {
+					if sig.Params().At(i) == o && o != nil && isInt64(o.Type()) {
+						if _, done := m[f.obj]; !done {
+							m[f.obj] = i
+							changed = true
+						}
+					}
+				}
+				return true
+			})
+		}
+	}
+	return m
+}
+
+// depthParam returns the nesting-depth parameter (type int64) of fd, found by role (see depthRoles).
+func depthParam(p *core.Program, info *types.Info, fd *ast.FuncDecl) types.Object {
+	obj, _ := info.Defs[fd.Name].(*types.Func)
+	if obj == nil {
+		return nil
+	}
+	i := depthIndexOf(p, obj)
+	if i < 0 {
+		return nil
+	}
+	return obj.Type().(*types.Signature).Params().At(i)
 }
 
 // depthArgIndex returns the index of the depth argument of a call, or -1.
@@ -54,12 +187,7 @@ func depthArgIndex(rc *core.RC, info *types.Info, call *ast.CallExpr) int {
 			return -1
 		}
 	}
-	for i := 0; i < sig.Params().Len(); i++ {
-		if sig.Params().At(i).Name() == "depth" {
-			return i
-		}
-	}
-	return -1
+	return depthIndexOf(rc.P, f)
 }
 
 func pkgPathOf(o types.Object) string {
@@ -108,7 +236,7 @@ func c06r1(rc *core.RC) {
 			continue
 		}
 		info := p.Info(fd)
-		d := depthParam(info, fd)
+		d := depthParam(rc.P, info, fd)
 		if d == nil {
 			continue
 		}
@@ -214,7 +342,7 @@ func c06r1(rc *core.RC) {
 				continue
 			}
 			info := p.Info(fd)
-			d := depthParam(info, fd)
+			d := depthParam(rc.P, info, fd)
 			// does it make a dynamic Decoder call or call a skipper with depth?
 			dyn := false
 			ast.Inspect(fd.Body, func(n ast.Node) bool {
@@ -848,7 +976,7 @@ func c06r3b(rc *core.RC) {
 						if prm == nil || !isReflectValue(prm.Type()) {
 							continue
 						}
-						key := fmt.Sprintf("%s/call %s/arg %s", fn, p.FuncName(id), core.Src(p.Fset, a))
+						key := fmt.Sprintf("%s/call %s/arg %s", fn, p.FuncName(id), core.Shape(p.Fset, info, fd, a))
 						if use := unguardedZeroUse(rc, id, prm); use != nil {
 							rc.Bad(key, call.Pos(), "passes %s, which may be the zero reflect.Value (%s), to %s whose parameter %s is used by %s without an IsValid test: panics on nil data", core.Src(p.Fset, a), why, p.FuncName(id), prm.Name(), core.Src(p.Fset, use.Fun))
 						} else {
@@ -1148,15 +1276,8 @@ func c06r8(rc *core.RC) {
 		}
 		info := p.Info(fd)
 		rc.Touch(p.FuncName(fd))
-		// the depth parameter
-		var depth types.Object
-		for _, f := range fd.Type.Params.List {
-			for _, nm := range f.Names {
-				if nm.Name == "depth" {
-					depth = info.Defs[nm]
-				}
-			}
-		}
+		// the depth parameter (found by role)
+		depth := depthParam(p, info, fd)
 		if depth == nil {
 			rc.Unknown(fn+"/depth", fd.Pos(), "no depth parameter")
 			continue
